@@ -167,3 +167,94 @@ FROM_LIST = Contract(
     result_type="None", props=["C19"], use_at_calls=False, pure=True)
 for _shape in ("last", "first", "none"):
     HEX_TASKS[K + f"from_list#timestamp-{_shape}"] = dict(qualname=K + "from_list", builder=candle_list_builder(_shape), contract=FROM_LIST)
+
+
+# ---- Hexital operations select their target by EXACT name (C13, C14)
+def hexital_ops_builder(ex, st):
+    """a Hexital with two registered indicators whose names are arbitrary (symbolic) strings; the indicators
+    are stubs that record which operation reached them"""
+    import z3
+    from hexvc.state import DictP, ObjP
+    from hexvc.symdict import SKey
+    from hexvc.tasks import new_series
+    src = ex.ctx.source
+    hcls = src.module("hexital.core.hexital").classes["Hexital"]
+    icls = src.module("hexital.indicators.ema").classes["EMA"]
+    mcls = src.module("hexital.core.candle_manager").classes["CandleManager"]
+    for c in (hcls, icls, mcls):
+        src.resolve_class_bases(c)
+    a = new_series(st, "base")
+    m0 = st.alloc(ObjP(mcls, {"candles": a, "timeframe": None, "timeframe_fill": False, "candles_lifespan": None, "candlestick_type": None}))
+    n1, n2, name = SKey(z3.Int("n1")), SKey(z3.Int("n2")), SKey(z3.Int("name"))
+    st.assume(z3.Int("n1") != z3.Int("n2"))
+    i1 = st.alloc(ObjP(icls, {"_output_name": n1, "touched": False}))
+    i2 = st.alloc(ObjP(icls, {"_output_name": n2, "touched": False}))
+    h = st.alloc(ObjP(hcls, {"name": "hex", "_candles": st.alloc(DictP({"default": m0})), "_indicators": st.alloc(DictP({n1: i1, n2: i2}))}))
+    yield st, [h, name], {}, {"self": h, "name": name, "n1": n1, "n2": n2, "i1": i1, "i2": i2}
+
+
+def _touch(ex, st, args, kwargs, node):
+    def gen():
+        st.heap[args[0].oid].fields["touched"] = True
+        yield st, None
+    return gen()
+
+
+OPS_NATIVES = {I + "purge": _touch, I + "calculate": _touch, I + "recalculate": _touch}
+EXACT = {"first-touched-iff-named": "iff(i1.touched == True, name == n1)", "second-touched-iff-named": "iff(i2.touched == True, name == n2)"}
+for _op in ("purge", "calculate", "recalculate"):
+    HEX_TASKS[H + _op + "#by-name"] = dict(qualname=H + _op, builder=hexital_ops_builder, natives=OPS_NATIVES,
+                                           contract=Contract(H + _op, ensures=dict(EXACT), result_type="None", props=["C13", "C14"], use_at_calls=False))
+
+
+# ---- C08: an indicator's settings dict builds the same indicator again
+def roundtrip_builder(clsq, kwargs):
+    def build(ex, st):
+        import z3
+        from hexvc.exec import FuncVal
+        from hexvc.objects import instantiate
+        from hexvc.state import DictP, ObjP
+        from hexvc.tasks import new_series
+        from hexvc.values import SInt, SFloat
+        src = ex.ctx.source
+        mod, cname = clsq.rsplit(".", 1)
+        cls = src.module(mod).classes[cname]
+        hcls = src.module("hexital.core.hexital").classes["Hexital"]
+        src.resolve_class_bases(cls)
+        src.resolve_class_bases(hcls)
+        kw = {}
+        for k, ty in kwargs.items():
+            if ty == "int":
+                kw[k] = SInt(z3.Int(k)); st.assume(kw[k].t >= 2)
+            elif ty == "float":
+                kw[k] = SFloat(z3.Real(k)); st.assume(kw[k].t > 0)
+            else:
+                kw[k] = ty
+        outs = list(instantiate(ex, cls, [], kw, st, None))
+        outs = [(s1, o) for s1, o in outs if ex.ctx.feasible(s1)]
+        st1, obj = outs[0]
+        c0, prop = st1.heap[obj.oid].cls.find("properties", "settings")
+        outs2 = list(ex.call_function(FuncVal(c0.module, prop, c0), [obj], {}, st1, None))
+        st2, settings = outs2[0]
+        h = st2.alloc(ObjP(hcls, {"name": "hex", "_candles": st2.alloc(DictP({})), "_indicators": st2.alloc(DictP({}))}))
+        yield st2, [h, settings], {}, {"self": h, "raw_indicator": settings, "orig": obj}
+    return build
+
+
+ROUNDTRIP = Contract(H + "_build_indicator", ensures={"same-class-and-parameters": "SameIndicator(result, orig)"},
+                     result_type="None", props=["C08"], use_at_calls=False)
+for _cls, _kw in (("hexital.indicators.sma.SMA", {"period": "int"}), ("hexital.indicators.ema.EMA", {"period": "int", "smoothing": "float"}),
+                  ("hexital.indicators.rma.RMA", {"period": "int"}), ("hexital.indicators.wma.WMA", {"period": "int"}),
+                  ("hexital.indicators.vwma.VWMA", {"period": "int"}), ("hexital.indicators.hma.HMA", {"period": "int"}),
+                  ("hexital.indicators.tr.TR", {}), ("hexital.indicators.atr.ATR", {"period": "int"}),
+                  ("hexital.indicators.stdev.StandardDeviation", {"period": "int"}), ("hexital.indicators.bbands.BBANDS", {"period": "int"}),
+                  ("hexital.indicators.kc.KC", {"period": "int", "multiplier": "float"}), ("hexital.indicators.donchian.Donchian", {"period": "int"}),
+                  ("hexital.indicators.highest_lowest.HighestLowest", {"period": "int"}), ("hexital.indicators.hla.HighLowAverage", {}),
+                  ("hexital.indicators.supertrend.Supertrend", {"period": "int", "multiplier": "float"}),
+                  ("hexital.indicators.stdevthres.StandardDeviationThreshold", {"period": "int", "multiplier": "float"}),
+                  ("hexital.indicators.counter.Counter", {"input_value": "positive"}), ("hexital.indicators.rsi.RSI", {"period": "int"}),
+                  ("hexital.indicators.macd.MACD", {"fast_period": "int", "signal_period": "int"}), ("hexital.indicators.roc.ROC", {"period": "int"}),
+                  ("hexital.indicators.stoch.STOCH", {"period": "int", "slow_period": "int"}), ("hexital.indicators.tsi.TSI", {"period": "int", "smooth_period": "int"}),
+                  ("hexital.indicators.aroon.AROON", {"period": "int"}), ("hexital.indicators.adx.ADX", {"period": "int", "period_signal": "int"}),
+                  ("hexital.indicators.obv.OBV", {}), ("hexital.indicators.vwap.VWAP", {"period": "int"})):
+    HEX_TASKS[H + "_build_indicator#settings-of-" + _cls.rsplit(".", 1)[1]] = dict(qualname=H + "_build_indicator", builder=roundtrip_builder(_cls, _kw), contract=ROUNDTRIP)
